@@ -222,6 +222,44 @@ def check_accepted(item):
             "nkey": nkey, "counts": counts, "show": text}
 
 
+def check_accepted_opset(item):
+    """The program text decorated with another opset class (13, 14, 15, 21, 23): only structural validity is judged -
+    onnx.checker on the ModelProto (rank-typed signature when the ranks are known) at the opset the model declares."""
+    prog, n = item["prog"], item["opset"]
+    text = f"[opset{n}] " + sg.body_text(prog)
+    nkey = f"o{n}|" + sg.compact(prog)
+    ranks = out_ranks(item, prog)
+    if ranks is None:      # no rank-typed signature: the ModelProto cannot be handed to the checker (types lack shapes)
+        return {"status": "ok", "outcome": f"o{n}:untyped-not-checked", "nontrivial": False, "nkey": nkey, "show": text}
+    try:
+        ld = sgrun.decorate(prog, ranks={"x": 1, "y": 1}, out_ranks=ranks, opset=n)
+    except sgrun.Refused as r:
+        return {"status": "ok", "outcome": f"o{n}:refused:{r.etype}", "nontrivial": False, "nkey": nkey, "show": text}
+    viols = []
+    try:
+        model, merr = sgrun.get_model(ld)
+        if model is None:
+            return {"status": "ok", "outcome": f"o{n}:model-not-exportable", "nontrivial": False, "nkey": nkey, "show": text}
+        declared = {o.domain: o.version for o in model.opset_import}.get("")
+        if declared != n:
+            viols.append({"key": f"C02|opset|declared-opset-differs", "detail": {"what": f"declared {declared}, class {n}", "program": text}})
+        try:
+            onnx.checker.check_model(model, full_check=True)
+        except Exception as e:  # noqa: BLE001
+            msg = str(e)
+            m = re.search(r"No Op registered for (\w+) with domain_version of (\d+)", msg)
+            if m:
+                key = f"C02|opset|emits-{m.group(1)}-below-its-first-opset"
+            else:
+                key = f"C02|opset|checker-model|{checker_class(msg)}"
+            viols.append({"key": key, "detail": {"what": msg[:300], "program": text, "opset": n}})
+    finally:
+        ld.close()
+    if viols:
+        return {"status": "viol", "outcome": f"o{n}:accepted-malformed", "nkey": nkey, "show": text, "viols": viols}
+    return {"status": "ok", "outcome": f"o{n}:accepted-wellformed", "nkey": nkey, "show": text}
+
+
 # ------------------------------------------------------------------------------------------------
 # mutation table
 # ------------------------------------------------------------------------------------------------
